@@ -364,7 +364,7 @@ impl Check for C09 {
         ctx.rule = format!(
             "deviation-bounded: corpus of {} programs (the repository's test scripts and generated programs) x every single layout edit at every token boundary (space / tab / CR after a token; comment before an existing newline; comment line or blank lines where a newline is neutral; newline <-> `;`; doubled terminators; line break and CR LF + indentation after each continuation token; line break after every other token compared with `;` there; `_` after every digit of every integer literal; every ASCII character of every plain string literal as \\xhh and \\xHH; leading layout), k = 1{}; plus every terminator of the corpus replaced by a space (rejected wherever the grammar then has no program); plus spaces, tabs, a leading line break, terminator or comment inside every interpolation slot of the corpus; plus a line break after each of the 25 continuation tokens and 13 non-continuation tokens; non-trivial = every edited variant",
             corp.len(),
-            if ctx.tier == Tier::Thorough { "; k = 2: all ordered pairs of edits on programs of at most 12 tokens" } else { "" }
+            if ctx.tier == Tier::Thorough { "; k = 2: all ordered pairs of edits on programs of at most 16 tokens" } else { "" }
         );
         let mut n_edits = 0u64;
         let mut seen_cont: std::collections::HashSet<String> = std::collections::HashSet::new();
@@ -398,7 +398,7 @@ impl Check for C09 {
         if ctx.tier == Tier::Thorough {
             for (name, src) in &corp {
                 let (toks, err) = lex_raw(src);
-                if err.is_some() || toks.len() > 12 {
+                if err.is_some() || toks.len() > 16 {
                     continue;
                 }
                 for e1 in edits(src) {
